@@ -1367,9 +1367,12 @@ def scenarios(rng, tier):
         # answers are opaque byte strings: white space at either end or inside (a real SDP answer ends in CRLF and has CRLF
         # inside), white space only, JSON/AMP-significant characters - over all three client formats the client must
         # receive exactly the bytes the proxy posted (key answer-altered)
-        WS = ["  ", " lead", "trail ", "\tlead-tab", "trail-tab\t", "trail-crlf\r\n", "\r\nlead-crlf", "trail-lf\n", "\n", "\r\n", " \t\r\n ",
-              "v=0\r\no=- 1 2 IN IP4 0.0.0.0\r\ns=-\r\n", "{\"type\":\"answer\",\"sdp\":\"v=0\\r\\n\"}\n", "in ner", "a\x0bb\x0c", "\x0b\x0c\xa0x\x85".encode("utf-8").decode("latin-1"),
-              "~tilde", "co,lon:at@eq=", "\"quoted\"", "<&>", "\\n"]
+        # ("@" stands for a fresh tag; bytes are written as latin-1 characters, non-ASCII ones as the UTF-8 of U+00A0 / U+0085
+        # so that the JSON encodings carry them unchanged)
+        U = lambda x: x.encode("utf-8").decode("latin-1")
+        WS = ["  ", " @", "@ ", "\t@", "@\t", "@\r\n", "\r\n@", "@\n", "\n", "\r\n", " \t\r\n ",
+              "v=0\r\no=- @ 2 IN IP4 0.0.0.0\r\ns=-\r\n", "{\"type\":\"answer\",\"sdp\":\"v=0\\r\\n@\"}\n", "in @ ner", "@\x0bb\x0c", U("\x0b\x0c\xa0") + "@" + U("\x85"),
+              U("\xa0"), "~@", "co,lon:at@eq=", "\"@\"", "<&@>", "@\\n"]
         for mode in modes:
             forms = list(WS) if tier != "quick" else WS[:6] + rng.sample(WS[6:], 5)
             for form in forms:
@@ -1377,8 +1380,7 @@ def scenarios(rng, tier):
                 sid = fresh("sid")
                 sc.poll(0, sid, "unrestricted")
                 sc.client(300, rng.choice(["restricted", "unknown", ""]), "{%s}" % fresh("o"), mode=mode)
-                body = form if rng.random() < 0.5 or not form.strip() else form.replace(form.strip(), fresh("ans"), 1) if form.strip() in form else form
-                sc.answer(200, sid, esc_answer(body), after_poll=0)
+                sc.answer(200, sid, esc_answer(form.replace("@", fresh("ans"))), after_poll=0)
                 S.append(sc)
         # bridge fingerprints of BOTH accepted lengths (20 and 32 bytes), in the list and named by clients, with pairs
         # that share their first 20 bytes: each is a bridge of its own (or no bridge at all)
